@@ -121,10 +121,35 @@ func checkGroupAssignment(s *Sim, cl *Cluster, g *Group, gr *GenRecord, metas ma
 		if top == nil {
 			continue
 		}
-		for _, p := range top.Parts {
-			if _, ok := owner[t][p.ID]; !ok {
-				s.Fail("C14", "R1-unassigned", "generation %d (%s): %s[%d] is assigned to nobody (subscribers %v)", gr.Generation, gr.Protocol, t, p.ID, members)
+		// The leader reads the topic's partitions after the generation formed
+		// and before it syncs: the assignment must cover exactly one of the
+		// partition sets the topic had in that window.
+		sets := top.SetsSince(gr.At)
+		match := false
+		for _, ids := range sets {
+			if len(ids) != len(owner[t]) {
+				continue
 			}
+			all := true
+			for _, id := range ids {
+				if _, ok := owner[t][id]; !ok {
+					all = false
+				}
+			}
+			match = match || all
+		}
+		if !match {
+			for _, id := range sets[0] {
+				if _, ok := owner[t][id]; !ok {
+					s.Fail("C14", "R1-unassigned", "generation %d (%s): %s[%d] is assigned to nobody (subscribers %v)", gr.Generation, gr.Protocol, t, id, members)
+				}
+			}
+			var got []int32
+			for id := range owner[t] {
+				got = append(got, id)
+			}
+			sort.Slice(got, func(i, j int) bool { return got[i] < got[j] })
+			s.Fail("C14", "R1-not-a-partition", "generation %d (%s): topic %s: assigned partitions %v are none of the partition sets the topic had since the generation formed %v", gr.Generation, gr.Protocol, t, got, sets)
 		}
 		min, max := 1<<30, 0
 		for _, m := range members {
